@@ -725,6 +725,10 @@ class ExprMixin:
         if isinstance(coll, VRef) and isinstance(coll.T, ty.Lst):
             return z3.Contains(st.lst_get(coll), z3.Unit(flatten(x, coll.T.elem)[0]))
         if isinstance(coll, VAbs):
+            if isinstance(coll.elem, ty.Tup):
+                # an items() view is a set of keys (the value is a function of the key)
+                kx = x.items[0] if isinstance(x, VTuple) else x
+                return z3.Select(coll.mem, flatten(kx, coll.elem.items[0])[0])
             return z3.Select(coll.mem, flatten(x, coll.elem)[0])
         if isinstance(coll, VStr) and isinstance(x, VStr):
             return z3.Contains(coll.t, x.t)
